@@ -744,7 +744,7 @@ def _factor_pairs(expr):
     factors = expr.as_ordered_factors()
     expanded_factors = []
     for f in factors:
-        if f.is_Number:
+        if f.is_number:
             continue
         base, exp = f.as_base_exp()
         if exp.q != 1:
